@@ -25,6 +25,23 @@ size_t position_of(T &t, size_t i, size_t j, size_t a, const double *base)
     else
         return (size_t)(&t(i, j, a) - base);
 }
+// the named dimension accessors (what the Python binding shapes its results with), when they exist under these names
+template <class T, class = void>
+struct has_named_dims : std::false_type
+{
+};
+template <class T>
+struct has_named_dims<T, std::void_t<decltype(std::declval<const T &>().get_nrows()), decltype(std::declval<const T &>().get_ncols()), decltype(std::declval<const T &>().get_ntubes())>> : std::true_type
+{
+};
+template <class T>
+void print_shape(std::ostream &os, const T &t)
+{
+    auto d = t.dims();
+    os << std::get<0>(d) << " " << std::get<1>(d) << " " << std::get<2>(d) << " " << t.size();
+    if constexpr (has_named_dims<T>::value)
+        os << " " << t.get_nrows() << " " << t.get_ncols() << " " << t.get_ntubes();
+}
 // ------------------------------------------------------------------ LAYOUT
 void do_layout(Toks &tk, std::ostream &os)
 {
@@ -40,6 +57,9 @@ void do_layout(Toks &tk, std::ostream &os)
                 a1 << (&t(i, j, a) - base) << " ";
                 a2 << position_of(t, i, j, a, base) << " ";
             }
+    os << id << " @shape ";
+    print_shape(os, t);
+    os << "\n";
     os << id << " idx " << a1.str() << "\n";
     os << id << " cxx " << a2.str() << "\n";
     {
@@ -47,6 +67,14 @@ void do_layout(Toks &tk, std::ostream &os)
         tensor::Tensor<double> s(C, R, T);
         tensor::Transpose<tensor::Tensor<double>> sT(s);
         const double *b2 = s.get_data().data();
+        {
+            auto dT = sT.dims();
+            os << id << " @shape_transposed " << std::get<0>(dT) << " " << std::get<1>(dT) << " " << std::get<2>(dT) << "\n";
+            tensor::Matrix<double> m(R, C);
+            os << id << " @shape_matrix ";
+            print_shape(os, m);
+            os << "\n";
+        }
         os << id << " transposed ";
         for (size_t a = 0; a < T; a++)
             for (size_t j = 0; j < C; j++)
